@@ -59,23 +59,24 @@ def build(cfg):
     return desc, cp
 
 
-def run_one(cfg, script, tid=0):
+def run_one(cfg, script, tid=0, default=None):
     desc, cp = build(cfg)
     rec, out = run_traced(desc, cp, cfg['NP'], lambda P: P.u_exact(0.0), cfg['T0'] * UNIT, cfg['TEND'] * UNIT,
-                          unit=UNIT, script=script, mode='lattice')
+                          unit=UNIT, script=script, mode='lattice', default=default)
+    script = rec.script[:rec.pos] if rec.script is not None else script
     lines = rec.lines
     if lines and lines[-1]['k'] == 'end':
-        lines[-1]['fixed'] = all((not o.get('rs')) and not o.get('dtn') for o in (script or []))
+        lines[-1]['fixed'] = all((not o.get('rs')) and not o.get('dtn') and not o.get('dtm') for o in (script or []))
     return dict(tid=tid, cfg=cfg, ev=lines, consumed=rec.pos, exhausted=rec.script_exhausted, errors=rec.errors,
-                exc=out['exc'])
+                exc=out['exc'], exc_msg=out.get('exc_msg'), script=script)
 
 
 TRACE_CONSTANT_DEFAULTS = dict(O_RES='{TRUE, FALSE}', O_RS='{TRUE, FALSE}', O_DTN='{0}', O_FD='{TRUE, FALSE}',
                                O_FC='{TRUE, FALSE}')
 
 
-def cfg_constants(cfg, oracle=None):
-    c = {}
+def cfg_constants(cfg, oracle=None, hist=False):
+    c = {'HIST': 'TRUE' if hist else 'FALSE'}
     for k in CFG_KEYS:
         v = cfg[k]
         if k == 'NSW':
